@@ -58,7 +58,8 @@ var c12Docs = []string{"<a id='7'><b>x</b><b>y</b></a>", "<a><b><c>deep</c></b>t
 
 var c12Lines = []string{"abc 12 3.5 true end", "  spaced   7 1e3 false ", "héllo 42 x yes", "10.1.2.3 user GET /x 200", "ab-12", "12", ""}
 
-var c12Defs = [][2]string{{"p1", "[a-z]+"}, {"p2", "\\d+"}, {"p3", "%{p1}-%{p2}"}, {"p1", "[a-zé]+"}, {"p4", "%{p3}|%{WORD}"}, {"p2", "[0-9.e]+"}, {"WORD", "[a-c]+"}, {"p5", "%{nosuch}"}}
+var c12Defs = [][2]string{{"p1", "[a-z]+"}, {"p2", "\\d+"}, {"p3", "%{p1}-%{p2}"}, {"p1", "[a-zé]+"}, {"p4", "%{p3}|%{WORD}"}, {"p2", "[0-9.e]+"}, {"WORD", "[a-c]+"}, {"p5", "%{nosuch}"},
+	{"p1", "\\d+"}, {"p2", "[a-z]+"}, {"p1", "[a-z]+"}, {"p2", "\\d+"}, {"p1", "\\S+"}, {"p2", "\\S+"}}
 var c12Groks = []string{"%{p1:w1} %{p2:n1:int}", "%{WORD:w1} %{INT:n1:int} %{NUMBER:x1:float} %{WORD:b1:bool}", "%{p3:both}", "%{p1:w1:str}\\s+%{p2:x1:float}",
 	"%{NOTSPACE:w1} %{NOTSPACE:n1:int}", "%{p4:any}", "%{IP:ip} %{WORD:u}", "%{GREEDYDATA:all}", "%{p2:n1:bool}", "%{WORD:message}", "%{nosuch:z}", "(?P<raw>\\d+)", "%{p5:z}"}
 
@@ -99,8 +100,35 @@ func (c12) build(c *mon.Ctx, workload string, i int64) ([]*gt.T, *ref.Point) {
 			}
 			return false
 		}
+		// tainted[level][name]: the name was re-defined in this nested block
+		// although an enclosing block defines it. fn.md says the redefinition
+		// fails, the code lets it win inside the block: references from inside
+		// that block are therefore not generated. After the block both
+		// readings agree (the outer definition), so later references ARE
+		// generated and compared.
+		tainted := []map[string]bool{{}}
+		isTainted := func(n string) bool {
+			for _, m := range tainted {
+				if m[n] {
+					return true
+				}
+			}
+			return false
+		}
+		refsTainted := func(pat string) bool {
+			for _, n := range []string{"p1", "p2", "p3", "p4", "p5", "WORD"} {
+				if strings.Contains(pat, "%{"+n) && isTainted(n) {
+					return true
+				}
+			}
+			// definitions built from a tainted name taint transitively: keep it simple
+			return false
+		}
 		// refsOK: every custom name the pattern text references is visible
 		refsOK := func(pat string) bool {
+			if refsTainted(pat) {
+				return false
+			}
 			for _, n := range []string{"p1", "p2", "p3", "p4", "p5", "nosuch"} {
 				if strings.Contains(pat, "%{"+n) && !anyVisible(n) {
 					return false
@@ -111,6 +139,9 @@ func (c12) build(c *mon.Ctx, workload string, i int64) ([]*gt.T, *ref.Point) {
 		pickOK := func(pool []string) string {
 			for tries := 0; ; tries++ {
 				p := pool[r.Intn(len(pool))]
+				if refsTainted(p) {
+					continue
+				}
 				if refsOK(p) || (tries > 6 && r.Intn(8) == 0) || r.Intn(14) == 0 {
 					return p
 				}
@@ -123,10 +154,26 @@ func (c12) build(c *mon.Ctx, workload string, i int64) ([]*gt.T, *ref.Point) {
 				switch k := r.Intn(9); {
 				case k < 3:
 					d := c12Defs[r.Intn(len(c12Defs))]
-					if isVisible(d[0]) {
-						continue // no shadowing across blocks
+					if refsTainted(d[1]) {
+						continue
 					}
-					if !refsOK(d[1]) && r.Intn(10) != 0 {
+					if isVisible(d[0]) {
+						// shadowing an enclosing block's definition: allowed, but
+						// nothing inside this block may reference the name afterwards
+						if len(visible) < 2 || r.Intn(4) == 0 {
+							continue
+						}
+						tainted[len(tainted)-1][d[0]] = true
+						// names defined from it in enclosing blocks keep their
+						// (already denormalised) meaning, but to stay clear of the
+						// disputed case they are not referenced here either
+						for _, dd := range c12Defs {
+							if strings.Contains(dd[1], "%{"+d[0]) {
+								tainted[len(tainted)-1][dd[0]] = true
+							}
+						}
+					}
+					if !refsOK(d[1]) && r.Intn(10) != 0 && !isTainted(d[0]) {
 						continue
 					}
 					visible[len(visible)-1][d[0]] = true
@@ -145,11 +192,15 @@ func (c12) build(c *mon.Ctx, workload string, i int64) ([]*gt.T, *ref.Point) {
 					}
 				case depth > 0 && k == 6:
 					visible = append(visible, map[string]bool{})
+					tainted = append(tainted, map[string]bool{})
 					a := gen1(depth - 1)
 					visible = visible[:len(visible)-1]
+					tainted = tainted[:len(tainted)-1]
 					visible = append(visible, map[string]bool{})
+					tainted = append(tainted, map[string]bool{})
 					b := gen1(depth - 1)
 					visible = visible[:len(visible)-1]
+					tainted = tainted[:len(tainted)-1]
 					cond := gt.Bool(r.Intn(2) == 0)
 					st := gt.If(cond, a...)
 					if r.Intn(2) == 0 {
@@ -160,14 +211,18 @@ func (c12) build(c *mon.Ctx, workload string, i int64) ([]*gt.T, *ref.Point) {
 					out = append(out, st)
 				case depth > 0 && k == 7:
 					visible = append(visible, map[string]bool{}, map[string]bool{})
+					tainted = append(tainted, map[string]bool{})
 					body := gen1(depth - 1)
 					visible = visible[:len(visible)-2]
+					tainted = tainted[:len(tainted)-1]
 					out = append(out, gt.For(gt.Assign("=", gt.Ident("i"), gt.Int(0)), gt.Bin("<", gt.Ident("i"), gt.Int(int64(r.Intn(3)))),
 						gt.Assign("=", gt.Ident("i"), gt.Bin("+", gt.Ident("i"), gt.Int(1))), body...))
 				case depth > 0:
 					visible = append(visible, map[string]bool{})
+					tainted = append(tainted, map[string]bool{})
 					body := gen1(depth - 1)
 					visible = visible[:len(visible)-1]
+					tainted = tainted[:len(tainted)-1]
 					out = append(out, gt.ForIn("e", gt.List(gt.Int(1), gt.Int(2)), body...))
 				}
 			}
